@@ -264,3 +264,33 @@ func writeReplay(cfg *runCfg, g *Gen, o *Obligation, dir string) (string, bool) 
 	os.WriteFile(path, []byte(b.String()), 0o644)
 	return path, confirmed
 }
+
+// writeBaseline records, per property, the names of the obligations discharged on the current tree.
+func writeBaseline(cfg *runCfg, obls []*Obligation, engineErrors int) int {
+	if engineErrors > 0 {
+		fmt.Fprintf(os.Stderr, "ENGINE-ERROR: baseline not written (%d engine errors)\n", engineErrors)
+		return 2
+	}
+	out := baselineFile{Obligations: map[string][]string{}}
+	bad := 0
+	for _, o := range obls {
+		if o.Canary {
+			continue
+		}
+		if o.Status != "unsat" {
+			fmt.Fprintf(os.Stderr, "not discharged: %s (%s)\n", o.Name, o.Status)
+			bad++
+			continue
+		}
+		for _, p := range o.Props {
+			out.Obligations[p] = append(out.Obligations[p], o.Name)
+		}
+	}
+	for p := range out.Obligations {
+		sort.Strings(out.Obligations[p])
+	}
+	b, _ := json.MarshalIndent(out, "", " ")
+	os.WriteFile(filepath.Join(cfg.verif, "spec", "baseline_obligations.json"), b, 0o644)
+	fmt.Fprintf(os.Stderr, "baseline written: %d obligations, %d not discharged (omitted)\n", len(obls), bad)
+	return 0
+}
